@@ -317,6 +317,48 @@ func (s *SessionStore) Remove(ctx context.Context, session *Session) {
 	instrumentDecreaseSessionGauge(session.AppKey)
 }
 
+// AddParticipant adds the participant to the given session, provided that the
+// session is still the one registered under its id. It reports false when the
+// session has ended in the meantime. It cannot interleave with RemoveIfEmpty:
+// a session is never removed between the check and the addition.
+func (s *SessionStore) AddParticipant(session *Session, p *Participant) bool {
+	s.initOnce.Do(s.init)
+	s.mutex.RLock()
+	defer s.mutex.RUnlock()
+
+	if registered, ok := s.sessions[s.GlobalSessionID(session.ID)]; !ok || registered != session {
+		return false
+	}
+
+	session.AddParticipant(p)
+	return true
+}
+
+// RemoveIfEmpty removes the session when it has no participant left and
+// reports whether it did. The emptiness check and the removal are a single
+// step with respect to AddParticipant.
+func (s *SessionStore) RemoveIfEmpty(ctx context.Context, session *Session) bool {
+	s.initOnce.Do(s.init)
+	s.mutex.Lock()
+	defer s.mutex.Unlock()
+
+	globalID := s.GlobalSessionID(session.ID)
+	if registered, ok := s.sessions[globalID]; !ok || registered != session {
+		return false
+	}
+	if session.ParticipantCount() != 0 {
+		return false
+	}
+
+	delete(s.sessions, globalID)
+	session.Close()
+
+	s.ids.Reuse(session.ID)
+
+	instrumentDecreaseSessionGauge(session.AppKey)
+	return true
+}
+
 func (s *SessionStore) GetByGlobalID(v string) (*Session, bool) {
 	s.initOnce.Do(s.init)
 
